@@ -1,5 +1,6 @@
 import C2paModel.Model.C26
 import C2paModel.Lemmas.C26Stack
+import C2paModel.Gen.C28HttpSites
 /-
 C26 — property theorems. The statement (properties.jsonl):
 
@@ -187,6 +188,91 @@ theorem isUriAllowed_iff (ps : List Pattern) (u : Uri) :
 theorem empty_list_allows_nothing (u : Uri) : ¬ AllowedSpec [] u := by
   rintro ⟨p, hp, _⟩; cases hp
 
+
+/-! ### the documented rule read strictly, and exactly what the code admits beyond it
+
+`HostRule` above lets the text in place of the `*` and the suffix be empty, because the code does
+(`host.len() <= suffix.len()` and a `.` before the suffix are its only checks). The documentation
+(settings `core.allowed_network_hosts`) speaks of a *sub-domain* of a *hostname*:
+`StrictHostRule` is that reading, `DegenerateHost` is precisely the excess, and
+`matches_exact` says the code admits the strict rule plus exactly that excess — so neither
+degenerate case can grow or shrink unnoticed. -/
+
+/-- `*.suffix` with a non-empty suffix admits exactly `label….suffix` with a non-empty left part;
+anything else is an exact comparison. -/
+def StrictHostRule (patternHost host : Bytes) : Prop :=
+  (∃ suffix, patternHost = wildcard ++ suffix ∧ suffix ≠ [] ∧
+     ∃ pre, pre ≠ [] ∧ lower host = pre ++ 46 :: suffix) ∨
+  ((∀ suffix, patternHost ≠ wildcard ++ suffix) ∧ lower patternHost = lower host)
+
+/-- What the code admits beyond the strict reading: the pattern `*.` (empty suffix) admits every
+host that ends in a dot, and `*.suffix` admits the host `.suffix` (empty label). -/
+def DegenerateHost (patternHost host : Bytes) : Prop :=
+  ∃ suffix, patternHost = wildcard ++ suffix ∧
+    ((suffix = [] ∧ ∃ pre, lower host = pre ++ [46]) ∨ lower host = 46 :: suffix)
+
+theorem hostRule_exact (ph h : Bytes) : HostRule ph h ↔ (StrictHostRule ph h ∨ DegenerateHost ph h) := by
+  unfold HostRule StrictHostRule DegenerateHost
+  constructor
+  · rintro (⟨suffix, hph, pre, hpre⟩ | hex)
+    · by_cases hs : suffix = []
+      · right; exact ⟨suffix, hph, Or.inl ⟨hs, pre, by rw [hpre, hs]⟩⟩
+      · by_cases hp : pre = []
+        · right; exact ⟨suffix, hph, Or.inr (by rw [hpre, hp]; rfl)⟩
+        · left; left; exact ⟨suffix, hph, hs, pre, hp, hpre⟩
+    · left; right; exact hex
+  · rintro ((⟨suffix, hph, _, pre, _, hpre⟩ | hex) | ⟨suffix, hph, (⟨hs, pre, hpre⟩ | hpre)⟩)
+    · left; exact ⟨suffix, hph, pre, hpre⟩
+    · right; exact hex
+    · left; exact ⟨suffix, hph, pre, by rw [hpre, hs]⟩
+    · left; exact ⟨suffix, hph, [], by rw [hpre]; rfl⟩
+
+/-- The documented rule for one pattern, strict reading, written without reference to the code's
+control flow: a pattern with a host needs a URI host under `StrictHostRule`, equal port texts and
+the scheme rule; a pattern without a host (scheme only) admits the URIs of that scheme. -/
+def StrictMatchesSpec (p : Pattern) (u : Uri) : Prop :=
+  (∃ ph h, p.host = some ph ∧ u.host = some h ∧ StrictHostRule ph h ∧ p.port = u.port ∧
+     SchemeRule p.scheme u.scheme) ∨
+  (p.host = none ∧ ∃ s, p.scheme = some s ∧ u.scheme = some s)
+
+/-- **`HostPattern::matches` admits exactly the strictly-read documented rule plus the two
+degenerate host cases** (with the same port and scheme conditions). -/
+theorem matches_exact (p : Pattern) (u : Uri) :
+    p.matches u = true ↔
+      (StrictMatchesSpec p u ∨
+       ∃ ph h, p.host = some ph ∧ u.host = some h ∧ DegenerateHost ph h ∧ p.port = u.port ∧
+         SchemeRule p.scheme u.scheme) := by
+  rw [matches_spec]
+  unfold MatchesSpec StrictMatchesSpec
+  cases hp : p.host with
+  | none =>
+    constructor
+    · rintro ⟨s, h1, h2⟩; left; right; exact ⟨rfl, s, h1, h2⟩
+    · rintro ((⟨ph, h, h0, _⟩ | ⟨_, s, h1, h2⟩) | ⟨ph, h, h0, _⟩)
+      · cases h0
+      · exact ⟨s, h1, h2⟩
+      · cases h0
+  | some ph =>
+    constructor
+    · rintro ⟨h, hu, hr, hport, hsc⟩
+      rcases (hostRule_exact ph h).1 hr with hs | hd
+      · left; left; exact ⟨ph, h, rfl, hu, hs, hport, hsc⟩
+      · right; exact ⟨ph, h, rfl, hu, hd, hport, hsc⟩
+    · rintro ((⟨ph', h, h0, hu, hs, hport, hsc⟩ | ⟨h0, _⟩) | ⟨ph', h, h0, hu, hd, hport, hsc⟩)
+      · cases h0; exact ⟨h, hu, (hostRule_exact ph h).2 (Or.inl hs), hport, hsc⟩
+      · cases h0
+      · cases h0; exact ⟨h, hu, (hostRule_exact ph h).2 (Or.inr hd), hport, hsc⟩
+
+/-- The strict rule never admits the bare suffix, a sibling that merely ends in the suffix text,
+or an empty label. -/
+theorem strict_wildcard_needs_label (suffix host : Bytes) (_hs : suffix ≠ [])
+    (h : StrictHostRule (wildcard ++ suffix) host) :
+    ∃ pre, pre ≠ [] ∧ lower host = pre ++ 46 :: suffix := by
+  rcases h with ⟨suf, hph, _, pre, hpre, hh⟩ | ⟨hno, _⟩
+  · have : suffix = suf := List.append_cancel_left hph
+    subst this; exact ⟨pre, hpre, hh⟩
+  · exact absurd rfl (hno suffix)
+
 /-! ### how `HostPattern::new` reads a pattern string -/
 
 theorem takeWhile_append_dropWhile {α : Type} (f : α → Bool) (l : List α) :
@@ -326,6 +412,174 @@ theorem new_spec (raw : Bytes) :
   · rcases splitPort_spec (splitScheme (lower raw)).2 with ⟨pt, h1, h2, h3⟩ | ⟨h1, h2, h3⟩
     · left; exact ⟨pt, h1, h2, h3⟩
     · right; exact ⟨h1, h2.symm, h3⟩
+
+
+/-! ### `new` and `matches` composed: from the pattern *text* to the admitted URIs -/
+
+def exUri' (host : String) (port : Option String) : Uri :=
+  { text := [], scheme := some (bytesOf "https"), host := some (bytesOf host), port := port.map bytesOf }
+
+/-- `scheme://` or nothing -/
+def schemePrefix : Option Bytes → Bytes
+  | none => []
+  | some s => s ++ bytesOf "://"
+
+/-- `:port` or nothing -/
+def portSuffix : Option Bytes → Bytes
+  | none => []
+  | some p => 58 :: p
+
+theorem pHttp_ne_pHttps (x r : Bytes) : pHttp ++ x ≠ pHttps ++ r := by
+  intro h
+  have := congrArg (fun l => l[4]?) h
+  simp [pHttp, pHttps, bytesOf] at this
+
+/-- **What `HostPattern::new` makes of a well-formed pattern text.** If the lower-cased text is
+`[http(s)://] host [:port]` — the host non-empty, the port (when present) without `:`, the host
+without `:` when there is no port, and a scheme-less text not itself starting with `http(s)://` —
+then `new` yields exactly these three components. Splitting at the first `:` instead of the last,
+dropping the port, or mis-reading the scheme prefix all falsify this. -/
+theorem new_of_text (raw : Bytes) (sc : Option Bytes) (h : Bytes) (pt : Option Bytes)
+    (hraw : lower raw = schemePrefix sc ++ (h ++ portSuffix pt))
+    (hsc : sc = none ∨ sc = some sHttps ∨ sc = some sHttp)
+    (hnone : sc = none → (∀ r, lower raw ≠ pHttps ++ r) ∧ ∀ r, lower raw ≠ pHttp ++ r)
+    (hne : h ≠ [])
+    (hcolon : match pt with | none => 58 ∉ h | some p => 58 ∉ p) :
+    Pattern.new raw = { pattern := lower raw, scheme := sc, host := some h, port := pt } := by
+  have hsplit : splitScheme (lower raw) = (sc, h ++ portSuffix pt) := by
+    unfold splitScheme
+    rcases hsc with rfl | rfl | rfl
+    · obtain ⟨n1, n2⟩ := hnone rfl
+      rw [(stripPrefix_none_iff _ _).2 n1, (stripPrefix_none_iff _ _).2 n2]
+      simp [hraw, schemePrefix]
+    · have : stripPrefix pHttps (lower raw) = some (h ++ portSuffix pt) :=
+        (stripPrefix_some_iff _ _ _).2 (by rw [hraw]; rfl)
+      rw [this]
+    · have n1 : stripPrefix pHttps (lower raw) = none :=
+        (stripPrefix_none_iff _ _).2 (fun r hr => by
+          rw [hraw] at hr; exact pHttp_ne_pHttps _ _ hr)
+      have : stripPrefix pHttp (lower raw) = some (h ++ portSuffix pt) :=
+        (stripPrefix_some_iff _ _ _).2 (by rw [hraw]; rfl)
+      rw [n1, this]
+  have hport : splitPort (h ++ portSuffix pt) = (h, pt) := by
+    unfold splitPort
+    cases pt with
+    | none =>
+      simp only [portSuffix, List.append_nil]
+      rw [(rsplitOnce_none 58 h).2 hcolon]
+    | some p =>
+      simp only [portSuffix]
+      rw [(rsplitOnce_some 58 (h ++ 58 :: p) h p).2 ⟨rfl, hcolon⟩]
+  have hem : h.isEmpty = false := by cases h <;> simp at hne ⊢
+  unfold Pattern.new
+  simp only [hsplit, hport, hem, Bool.false_eq_true, if_false]
+
+/-- **From pattern text to admitted URIs**: for a well-formed pattern text the URIs that
+`HostPattern::new(text).matches` admits are exactly those whose host satisfies the host rule for
+the text's host part, whose port text equals the text's port part (both absent or both equal) and
+whose scheme is the text's scheme when it has one. -/
+theorem new_matches_iff (raw : Bytes) (sc : Option Bytes) (h : Bytes) (pt : Option Bytes) (u : Uri)
+    (hraw : lower raw = schemePrefix sc ++ (h ++ portSuffix pt))
+    (hsc : sc = none ∨ sc = some sHttps ∨ sc = some sHttp)
+    (hnone : sc = none → (∀ r, lower raw ≠ pHttps ++ r) ∧ ∀ r, lower raw ≠ pHttp ++ r)
+    (hne : h ≠ [])
+    (hcolon : match pt with | none => 58 ∉ h | some p => 58 ∉ p) :
+    (Pattern.new raw).matches u = true ↔
+      ∃ uh, u.host = some uh ∧ HostRule h uh ∧ pt = u.port ∧ SchemeRule sc u.scheme := by
+  rw [new_of_text raw sc h pt hraw hsc hnone hne hcolon, matches_spec]
+  simp [MatchesSpec]
+
+/-- Plain host text (no scheme, no port, no wildcard): admitted are exactly the URIs with that
+host, case-insensitively, and *no* port. -/
+theorem new_exact_host (raw : Bytes) (u : Uri)
+    (hc : 58 ∉ lower raw) (hne : raw ≠ [])
+    (hw : ∀ s, lower raw ≠ wildcard ++ s) :
+    (Pattern.new raw).matches u = true ↔
+      ((u.host.map lower) = some (lower raw) ∧ u.port = none) := by
+  have hnp : ∀ (pre : Bytes), (58 : Nat) ∈ pre → ∀ r, lower raw ≠ pre ++ r := by
+    intro pre hp r e; apply hc; rw [e]; exact List.mem_append_left _ hp
+  have hne' : lower raw ≠ [] := by cases raw <;> simp [lower] at hne ⊢
+  rw [new_matches_iff raw none (lower raw) none u (by simp [schemePrefix, portSuffix]) (Or.inl rfl)
+    (fun _ => ⟨hnp pHttps (by decide), hnp pHttp (by decide)⟩) hne' hc]
+  have lower_lower : lower (lower raw) = lower raw := by
+    unfold lower
+    rw [List.map_map]
+    apply List.map_congr_left
+    intro b _
+    simp only [Function.comp, lowerByte]
+    by_cases h1 : 65 ≤ b ∧ b ≤ 90
+    · simp only [h1, and_self, if_true]
+      have h2 : ¬ (65 ≤ b + 32 ∧ b + 32 ≤ 90) := by omega
+      rw [if_neg h2]
+    · simp [h1]
+  constructor
+  · rintro ⟨uh, hu, hr, hp, _⟩
+    rcases hr with ⟨suffix, hs, _⟩ | ⟨_, he⟩
+    · exact absurd hs (hw suffix)
+    · rw [lower_lower] at he
+      exact ⟨by rw [hu]; simp [he], hp.symm⟩
+  · rintro ⟨hh, hp⟩
+    cases hu : u.host with
+    | none => rw [hu] at hh; simp at hh
+    | some uh =>
+      rw [hu] at hh
+      refine ⟨uh, rfl, Or.inr ⟨hw, ?_⟩, hp.symm, fun s hs => by cases hs⟩
+      rw [lower_lower]; simpa using hh.symm
+
+example : Pattern.new (bytesOf "HTTPS://Cdn.Example.net:8443") =
+    { pattern := bytesOf "https://cdn.example.net:8443", scheme := some sHttps,
+      host := some (bytesOf "cdn.example.net"), port := some (bytesOf "8443") } :=
+  new_of_text _ (some sHttps) (bytesOf "cdn.example.net") (some (bytesOf "8443")) (by decide)
+    (Or.inr (Or.inl rfl)) (by intro h; cases h) (by decide) (by decide)
+
+/-- `new_exact_host` applies to an ordinary host name … -/
+example : (Pattern.new (bytesOf "Example.ORG")).matches (exUri' "EXAMPLE.org" none) = true :=
+  (new_exact_host (bytesOf "Example.ORG") _ (by decide) (by decide)
+    (by intro s h; have := congrArg (fun l => l[0]?) h; simp [lower, lowerByte, bytesOf, wildcard] at this)).2
+    (by decide)
+
+/-- … and `new_matches_iff` to a wildcard pattern with scheme and port: a sub-domain on that port
+and scheme is admitted. -/
+example : (Pattern.new (bytesOf "https://*.Example.org:8443")).matches
+    { text := [], scheme := some sHttps, host := some (bytesOf "CDN.example.org"), port := some (bytesOf "8443") } = true :=
+  (new_matches_iff (bytesOf "https://*.Example.org:8443") (some sHttps) (bytesOf "*.example.org")
+    (some (bytesOf "8443")) _ (by decide) (Or.inr (Or.inl rfl)) (by intro h; cases h) (by decide) (by decide)).2
+    ⟨bytesOf "CDN.example.org", rfl,
+      Or.inl ⟨bytesOf "example.org", by decide, bytesOf "cdn", by decide⟩, rfl, fun s hs => by cases hs; rfl⟩
+
+/-! ### degenerate and surprising pattern texts, pinned as facts
+
+None of these lets a request through that the *configured text* does not name, so none is a
+violation of the statement; they are recorded so that a change is noticed (the harness replays each
+on `HostPattern::new` / `matches`). -/
+
+def uriOf (host : String) (port : Option String) : Uri :=
+  { text := [], scheme := some (bytesOf "https"), host := some (bytesOf host), port := port.map bytesOf }
+
+/-- the pattern `*.` (no suffix) admits every host written with a trailing dot -/
+theorem wildcard_dot_admits_fqdn :
+    (Pattern.new (bytesOf "*.")).matches (uriOf "evil.com." none) = true ∧
+    (Pattern.new (bytesOf "*.")).matches (uriOf "evil.com" none) = false := by decide
+
+/-- `*.example.org` admits the host `.example.org` (empty label) — and not `example.org` -/
+theorem wildcard_admits_empty_label :
+    (Pattern.new (bytesOf "*.example.org")).matches (uriOf ".example.org" none) = true ∧
+    (Pattern.new (bytesOf "*.example.org")).matches (uriOf "example.org" none) = false ∧
+    (Pattern.new (bytesOf "*.example.org")).matches (uriOf "fakeexample.org" none) = false := by decide
+
+/-- An IPv6 literal pattern without a port is cut at its last `:` (host `[:`, port `1]`) and admits
+nothing an `http::Uri` can carry (its port is digits only) — it fails closed; with a port it works. -/
+theorem ipv6_pattern_needs_port :
+    Pattern.new (bytesOf "[::1]") =
+      { pattern := bytesOf "[::1]", scheme := none, host := some (bytesOf "[:"), port := some (bytesOf "1]") } ∧
+    (Pattern.new (bytesOf "[::1]")).matches (uriOf "[::1]" none) = false ∧
+    (Pattern.new (bytesOf "[::1]")).matches (uriOf "[::1]" (some "8080")) = false ∧
+    (Pattern.new (bytesOf "[::1]:8080")).matches (uriOf "[::1]" (some "8080")) = true := by decide
+
+/-- A pattern with a trailing dot or a trailing `:` is compared literally. -/
+theorem literal_dot_and_colon :
+    (Pattern.new (bytesOf "example.org")).matches (uriOf "example.org." none) = false ∧
+    (Pattern.new (bytesOf "example.org:")).matches (uriOf "example.org" none) = false := by decide
 
 /-! ### enforcement: one layer -/
 
@@ -480,5 +734,95 @@ example :
     isUriDisallowed (stack exTransport exJoin (some exPatterns) true exReq).2 = true ∧
     (stack exTransport exJoin (some exPatterns) true exReq).1.trace.length = 1 ∧
     (stack exTransport exJoin (some exPatterns) true exReq).1.attempts.length = 2 := by decide
+
+/-! ### "every request": the request sites of the SDK
+
+The statement quantifies over every HTTP request of the SDK. `transport_only_sees_allowed` covers
+the requests issued through `Context::resolver()`. Two request sites do not go through it
+(`Model/C26.lean`, `Site`); for them the statement is **false**, proved here with witnesses that
+the harness replays on the real code over a loopback listener (known findings
+`signer-timestamp-request-ignores-allow-list`, `remote-signer-ignores-allow-list`). -/
+
+/-- The allow-list of the caller's configuration is enforced on every request issued at `site`. -/
+def SiteEnforces (site : Site) : Prop :=
+  ∀ (t : Transport) (join : JoinFn) (ps : List Pattern) (redirects : Bool) (req : Request),
+    ∀ r ∈ (siteStack site t join (some ps) redirects req).1.trace, AllowedSpec ps r.uri
+
+/-- The full statement of C26 over the request sites of sdk/src. It is false of the current code. -/
+def EveryRequestSiteEnforces : Prop := ∀ site, SiteEnforces site
+
+def okTransport : Transport := fun _ _ => .ok { status := 200, location := .absent }
+
+/-- **Exactly the Context-resolver site enforces the allow-list**; the signer's default
+time-stamp request and the remote signer send their request whatever list is configured (witness:
+the empty list, "all traffic is blocked"). -/
+theorem site_enforces_iff (site : Site) : SiteEnforces site ↔ site = .contextResolver := by
+  constructor
+  · intro h
+    cases site with
+    | contextResolver => rfl
+    | signerTimestamp =>
+      have := h okTransport exJoin [] false exReq exReq (by decide)
+      exact absurd this (empty_list_allows_nothing _)
+    | remoteSigner =>
+      have := h okTransport exJoin [] false exReq exReq (by decide)
+      exact absurd this (empty_list_allows_nothing _)
+  · rintro rfl t join ps redirects req r hr
+    exact transport_only_sees_allowed t join ps redirects req r hr
+
+/-- The full statement is false: witness `signerTimestamp` (also `remoteSigner`). -/
+theorem every_request_site_enforces_false : ¬ EveryRequestSiteEnforces := by
+  intro h
+  have := (site_enforces_iff .signerTimestamp).1 (h .signerTimestamp)
+  cases this
+
+/-- What remains true: the part of the statement about the Context resolver
+(`transport_only_sees_allowed`, `refused_is_uri_disallowed`) — the full statement is
+`EveryRequestSiteEnforces`. -/
+theorem every_request_site_enforces_partial : SiteEnforces .contextResolver :=
+  (site_enforces_iff .contextResolver).2 rfl
+
+/-- The witnesses, concretely: with the empty list configured the time-stamp request and the
+remote-signing request reach the transport, while the same request through the Context resolver
+is refused without reaching it. -/
+example :
+    (siteStack .signerTimestamp okTransport exJoin (some []) false exReq).1.trace = [exReq] ∧
+    (siteStack .remoteSigner okTransport exJoin (some []) false exReq).1.trace = [exReq] ∧
+    (siteStack .contextResolver okTransport exJoin (some []) false exReq).1.trace = [] ∧
+    isUriDisallowed (siteStack .contextResolver okTransport exJoin (some []) false exReq).2 = true := by
+  decide
+
+/-! #### the site list is the source's: generated table, pinned exception list
+
+`Gen.sinkSites` / `Gen.freshContexts` are regenerated from sdk/src on every run
+(`translators/c28_http_sites.py`). A request site is classified by how it obtains its transport:
+through `.resolver()` / `.resolver_async()` of a Context (then which Context matters: the
+`freshContexts` rows are the functions that build a default-settings Context on the spot), or by
+constructing an HTTP client itself (`own_transport`). The theorem pins both exception lists: a new
+site that builds its own client, or a new function that builds a fresh `Context`, changes the
+generated table and breaks this obligation. -/
+
+/-- every non-test function of sdk/src (outside sdk/src/http) that touches an HTTP transport
+either asks a Context for its resolver, is the Context's own stack builder, or is the one reviewed
+exception `RemoteSigner::sign` -/
+def sinkSiteClassified (x : String × String × String) : Bool :=
+  C28.Gen.sinkSites.contains (x.1, x.2.1, "resolver") || x.1 == "context.rs" ||
+    (x.1 == "settings/signer.rs" && x.2.1 == "sign")
+
+theorem request_sites_pinned :
+    C28.Gen.sinkSites.all sinkSiteClassified = true ∧
+    -- HTTP clients constructed outside sdk/src/http: the Context's two stack builders and `Site.remoteSigner`
+    (C28.Gen.sinkSites.filter (fun x => x.2.2 == "own_transport")).map (fun x => (x.1, x.2.1)) =
+      [("context.rs", "build_default_async_resolver"), ("context.rs", "build_default_sync_resolver"),
+       ("settings/signer.rs", "sign")] ∧
+    -- default-settings Contexts built on the spot; the two that are handed to a request function are
+    -- `Site.signerTimestamp` (provider.rs and signer.rs, sync and async bodies folded); `Reader::default`
+    -- and `Store::default` are the caller's own "no settings" constructors, utils/test.rs is test support
+    C28.Gen.freshContexts =
+      [("crypto/time_stamp/provider.rs", "send_time_stamp_request"), ("reader.rs", "default"),
+       ("signer.rs", "send_timestamp_request"), ("store.rs", "default"),
+       ("utils/test.rs", "create_test_store"), ("utils/test.rs", "create_test_store_v1")] := by
+  decide
+
 
 end C2pa.C26
